@@ -90,3 +90,44 @@ Definition verdict_e2e (c : N * list ev * list N * bool) : N :=
   (if existsb (fun e => match e with SwOut _ => true | _ => false end) evs && negb (match obs with [] => true | _ => false end) then 10 else 0) +
   (if failed || negb (fold_right N.add 0 obs =? running (timed evs)) then 2
    else if listN_eqb (deltas_of mos) obs then 0 else 1).
+
+(* End to end in the converter's OTHER off-CPU mode (no context-switch records, but a sched:sched_switch tracepoint event recorded next to the main
+   event - `simpleperf record --trace-offcpu`, `perf record -e cpu-clock -e sched:sched_switch`): a sched_switch sample of the thread is its
+   switch-out, the next main-event sample ends the sleep; here the off-CPU samples reach the profile (the sched_switch sample's stack is theirs).
+   Events of one thread: SwOut t (a sched_switch sample) | Sample t (a main-event sample).  Observed: every sample of the thread's table as
+   (time, CPU delta, weight), ns.  Decided on the observation: the CPU deltas handed out sum to exactly the time observed running up to the last sample,
+   and the weights beyond one per main-event sample sum to the sleeping time divided by the interval (the remainder, below one interval, is carried).
+   Conformance: the table is, as a multiset, what the handler model yields when driven the way handle_main_event_sample drives it (a group is
+   followed by consume_cpu_delta for its first sample; a group of more than one sample gets a rest sample at its end with the remaining weight).
+   0 ok / 1 differs from the model only / 2 a clause fails (or the import failed); +10 non-trivial: some sleep yields an off-CPU sample *)
+Definition obs3 := (N * N * N)%type.
+Definition consume (s : cs) : cs := mkCs (st s) 0 (off_acc s) (bad s).
+Fixpoint sched_expect (I : N) (s : cs) (evs : list ev) : list obs3 :=
+  match evs with
+  | [] => []
+  | SwOut t :: r => sched_expect I (switch_out t s) r
+  | Sample t :: r =>
+      let '(s1, o) := switch_in I t s in
+      let '(s2, pre) :=
+        match o with
+        | OGroup b e c => (consume s1, (b, on_acc s1, 1) :: (if 1 <? c then [(e, 0, c - 1)] else []))
+        | _ => (s1, [])
+        end in
+      pre ++ (t, on_acc s2, 1) :: sched_expect I (consume s2) r
+  | _ :: r => sched_expect I s r
+  end.
+Definition obs3_eqb (a b : obs3) : bool :=
+  let '(a1, a2, a3) := a in let '(b1, b2, b3) := b in (a1 =? b1) && (a2 =? b2) && (a3 =? b3).
+Definition count3 (x : obs3) (l : list obs3) : nat := length (filter (obs3_eqb x) l).
+Definition same_multiset3 (a b : list obs3) : bool :=
+  Nat.eqb (length a) (length b) && forallb (fun x => Nat.eqb (count3 x a) (count3 x b)) a.
+Definition verdict_e2e_sched (c : N * list ev * list obs3 * bool) : N :=
+  let '(iv, evs, obs, failed) := c in
+  let l := timed evs in
+  let exp := sched_expect iv cs_init evs in
+  let nmain := N.of_nat (length (filter (fun e => match e with Sample _ => true | _ => false end) evs)) in
+  let wsum := fold_right N.add 0 (map (fun x : obs3 => snd x) obs) in
+  let dsum := fold_right N.add 0 (map (fun x : obs3 => snd (fst x)) obs) in
+  (if N.ltb nmain (N.of_nat (length exp)) then 10 else 0) +
+  (if failed || negb (dsum =? running l) || negb (nmain <=? wsum) || negb (wsum - nmain =? (sleeping l - pending_sleep l) / iv) then 2
+   else if same_multiset3 exp obs then 0 else 1).
